@@ -721,6 +721,24 @@ pub fn one_case(ctx: &Ctx, case: u64, l: &mut Local) {
                     _ => (*r.pick(&path_pool)).to_string(),
                 });
             }
+            // paths derived from the claims' own member names: truncated / extended by multi-byte
+            // characters, so that byte offsets of one name fall inside a character of the path
+            if let Some(o) = claims.as_object() {
+                let keys: Vec<&String> = o.keys().collect();
+                if !keys.is_empty() {
+                    let k = (*r.pick(&keys)).clone();
+                    let cut = |s: &str, n: usize| -> String { s.chars().take(n).collect() };
+                    let n = k.chars().count();
+                    for mb in ["é", "€", "😀"] {
+                        own.push(format!("$.{}{mb}.x", cut(&k, n.saturating_sub(1))));
+                        own.push(format!("$.{k}{mb}"));
+                        own.push(format!("$.{}{mb}{}", cut(&k, n / 2), cut(&k, n)));
+                        own.push(format!("$.{mb}{k}"));
+                    }
+                    own.push(format!("$.{k}[0]{}", "é"));
+                    own.push(format!("$.{k}.é[1]"));
+                }
+            }
             let paths: Vec<&str> = own.iter().map(|s| s.as_str()).collect();
             use sd_jwt_rs::ClaimsForSelectiveDisclosureStrategy as S;
             // the enumerated path only matters under Custom: force it for 3 of 4 cases
